@@ -11,7 +11,7 @@ var vhSwapParents = false
 // vhMut applies one structural mutation to an otherwise produced-shape history
 // (valid mode only): 1 = commit pos becomes an additional root, 2 = the root pos has no
 // creation clock, 3 = the merge commit pos carries an operation, 4 = the pack of pos is
-// undecodable. Clock values are symbolic and unconstrained in any case.
+// undecodable, 5 = no pack holds any operation (an empty entity). Clock values are symbolic and unconstrained in any case.
 var vhMut struct{ kind, pos int }
 
 // vhFixedShape, when set, replaces the enumeration of parent assignments by one given
@@ -73,6 +73,9 @@ func vhGenDag(n int, hostile bool, maxParents int) *vhDag {
 			}
 		} else if mutHere && vhMut.kind == 3 {
 			rt.Assume(false)
+		}
+		if !hostile && vhMut.kind == 5 {
+			nops = 0 // a history without any operation
 		}
 		for k := 0; k < nops; k++ {
 			ops = append(ops, vhNewOp(nop, author))
